@@ -79,7 +79,7 @@ def catalogue_case(draw, n_times):
     n = draw(st.integers(*n_times))
     step = draw(S.fl(0.3, 1.0, 2)) * tmax / n
     rel = [S.sig(step * (i + 1), 5) for i in range(n)]
-    return m, {"x0": x0, "theta": theta, "t0": draw(st.sampled_from([0.0, 0.0, 1.0])), "grid_rel": rel}
+    return m, {"x0": x0, "theta": theta, "t0": draw(st.sampled_from([0.0, 0.0, 1.0, 2020.0])), "grid_rel": rel}
 
 
 @st.composite
